@@ -328,7 +328,10 @@ func seqFamily(depth int, budget time.Duration) mc.Family {
 			pr := psrun.NewPair(opTable)
 			var trace []string
 			if start != "" {
-				if r := pr.Step(start); !r.OK || r.Skipped || r.Ended {
+				if r := pr.Step(start); !r.OK {
+					// library and reference disagree on the fresh state or on the start program
+					return mc.Fail("C02:sequences:start-state-differs", start+": "+r.Detail)
+				} else if r.Skipped || r.Ended {
 					return mc.Fail("C02:harness:start-state", start+": "+r.Detail)
 				}
 				trace = append(trace, start)
